@@ -20,7 +20,7 @@ done
 import json, sys, re
 p, tier, res = sys.argv[1:4]
 m = json.load(open(p))
-new = [l for l in res.replace("\\n", "\n").split("\n") if l.strip()]
+new = [l for l in res.replace("\\n", "\n").split("\n") if l.strip() and re.match(r"(C\d+)", l)]
 ids = set(re.match(r"(C\d+)", l).group(1) for l in new)
 key = "checks_" + tier
 old = [l for l in m.get(key, []) if re.match(r"(C\d+)", l).group(1) not in ids]
